@@ -8,7 +8,7 @@ CHECKS = {
         "Symmetry objects and compared with a table based group model; every array with <=3 (quick) / <=4 (thorough) indices over every non-empty "
         "subset of a 3-charge set, every direction pattern and total charge has gen_valid_sectors / is_valid_sector / from_fill_fn compared with a brute-force filter. "
         "sign() is also run with its dualness flag in every accepted representation (bool, int 0/1, numpy.bool_) in every order of first use from cold memo caches. "
-        "The quantifier of the property is finite and is covered completely, which is why exhaustive enumeration is the right level.",
+        "The quantifier of the property is finite and is covered completely, which is why exhaustive enumeration is the right level. from_fill_fn / random are also called with the indices as list and as generator, and random after the same call with another symmetry on the same structure (generic class).",
    note="Trusted: mc/groups.py as specification of the groups; python int semantics. Bounded to the stated boxes and index counts."),
  "C02": dict(engine="E-enum", design_ref="DESIGN.md 5 C02",
    technique="exhaustive enumeration of contractible pairs x axes x modes on the real code; reference = numpy contraction of the harness's own dense embedding, exact integer tags",
@@ -22,7 +22,7 @@ CHECKS = {
    text="Every fermionic pair (a, b, axes) and single array of the bounded universe (<=3 indices per operand, <=3 charges per index; all directions, even and odd charges "
         "with both label orders, pending-sign tables, independent sparsity) is run through the real tensordot (fused / blockwise / auto, autoray, int axes), @, transpose (every "
         "permutation), trace and einsum and compared element for element - plus charge, directions and remaining labels - with the word-model reference in mc/ref_graded.py. "
-        "This covers exhaustively the clause 'all small index structures' of the quantifier; the 'randomly beyond' clause is sampling and is not claimed.",
+        "This covers exhaustively the clause 'all small index structures' of the quantifier; the 'randomly beyond' clause is sampling and is not claimed. Permutations are also spelled with negative axes (same result or a refusal).",
    note="Trusted: the word model as specification of graded semantics ((bra,ket) adjacency = +1, (ket,bra) = -1; labels left of the axes); numpy; integer tags."),
  "C05": dict(engine="E-enum", design_ref="DESIGN.md 5 C05, 4.4",
    technique="exhaustive enumeration of arrays x ordered disjoint axis groupings x strategies x cache settings on the real fuse / unfuse; reference = layout rebuilt by the harness from the fused index's own sub-index table, exact integer tags",
@@ -30,14 +30,14 @@ CHECKS = {
         "disjoint ordered axis groups (single-axis, non-adjacent, permuted, nested on an already fused axis), with strategies insert and concat and the fuse cache on and off. "
         "The fused index's own table is audited (signed combination, extent sizes, direction of the first axis, sub-indices) and the fused blocks must equal, element for "
         "element, the layout that table prescribes; both strategies / cache settings must agree exactly; unfusing must restore every block bit for bit (fermionic: the R-graded transpose). "
-        "Also: the conjugate taken after the fuse fused with the same groups (audited against its own tables), fuse -> conj -> unfuse, and empty groups (ignored / expanded to a singlet axis).",
+        "Also: the conjugate taken after the fuse fused with the same groups (audited against its own tables), fuse -> conj -> unfuse, and empty groups (ignored / expanded to a singlet axis). Arrays whose blocks differ in element type are fused with both strategies (nothing may be lost).",
    note="Trusted: numpy transpose/reshape on tagged blocks; the R-graded transpose for the fermionic round trip. Fermionic concat strategy is not reachable through the public fuse and is not covered."),
  "C07": dict(engine="E-enum", design_ref="DESIGN.md 5 C07",
    technique="exhaustive enumeration of shapes x merge/drop targets for the axis-matching routine against a plan interpreter, and of real arrays x targets x the trip back with exact integer tags",
    text="(a) calc_reshape_args is run on every shape with <=5 axes over sizes {1,2,3,4,6} and every target reachable by merging adjacent axes and dropping size-one axes, and on the "
         "reverse trip with the sub-sizes the forward plan produces; a plan interpreter executes (unfuse, fuse groupings, expand) on the abstract shape and must land exactly on the target "
         "with contiguous, disjoint, in-range groups. (b) Real abelian and fermionic arrays (axis sizes 1-3, size-one axes with zero and non-zero charge, a pre-fused variant, sparsity patterns) "
-        "are reshaped to every such target and back: rank, no axis larger than requested, same multiset of non-zero magnitudes, charge, exact restoration of blocks and index tables, identity on the current shape.",
+        "are reshaped to every such target and back: rank, no axis larger than requested, same multiset of non-zero magnitudes, charge, exact restoration of blocks and index tables, identity on the current shape. The conjugate taken after a merge makes the same trip (merge, back) and must come back unchanged.",
    note="Trusted: numpy; tags make content comparison exact. Known finding: all-size-one array -> () raises IndexError (listed in known_findings.json)."),
  "C08": dict(engine="E-enum", design_ref="DESIGN.md 5 C08",
    technique="exhaustive enumeration of abelian arrays / block vectors x operation x argument menu x entry point on the real code; reference = numpy on the harness's dense embedding, exact",
@@ -45,7 +45,7 @@ CHECKS = {
         "(every permutation, conj, dagger/H/T, squeeze, expand_dims with every position / charge / direction option, scalar and array arithmetic with a second operand of independent "
         "sparsity, multiply_diagonal on every axis with each vector charge missing, sum, norm, abs, sqrt) via the method, the symmray function and autoray.do; block vectors over every "
         "charge subset through all arithmetic (reflected and power forms) and every exported elementwise function. The dense form of each result must equal the numpy operation on the "
-        "dense operands exactly; a raise is a tallied refusal; the three entry points must agree in outcome.",
+        "dense operands exactly; a raise is a tallied refusal; the three entry points must agree in outcome. Axes are also spelled with negative numbers (transpose, squeeze, expand_dims): the dense result or a raise, never another array.",
    note="Trusted: numpy ufuncs; harness embedding. norm uses rel. tolerance 1e-12. log/log2/log10 raise (RecursionError) on every entry point: tallied as refusals, consistent across entry points."),
  "C16": dict(engine="E-enum", design_ref="DESIGN.md 5 C16",
    technique="exhaustive enumeration of classes x symmetry-argument variants x index structures x charges x stored sectors x dense labelings on the real constructors; reference = the harness's own expectation and projection",
@@ -53,7 +53,7 @@ CHECKS = {
         "random and from_dense (classmethod and utils helper) are called on the static class and on the dynamic class with the symmetry as string / object / omitted / mismatching, with the "
         "charge given and omitted, and each result is compared (symmetry, charge, index tables, sectors, blocks, dtype) with the harness's expectation; calls that must be refused must raise. "
         "Dense arrays under sorted, reversed, interleaved and seeded per-axis labelings are converted to blocks and compared with the harness's projection onto the conserving sectors "
-        "(reordered by charge, original position); to_dense is compared with the harness embedding (fermionic structures carry pending signs; also for arrays whose blocks have differing element types, narrow type stored first or last); non-zero entries outside the conserving sectors are ignored / refused as documented; two arrays built from one caller mapping must not alias it.",
+        "(reordered by charge, original position); to_dense is compared with the harness embedding (fermionic structures carry pending signs; also for arrays whose blocks have differing element types, narrow type stored first or last); non-zero entries outside the conserving sectors are ignored / refused as documented; two arrays built from one caller mapping must not alias it. from_dense is also run on every arrangement of 3-4 positions of one charge among 5-7 positions of an axis (vectors and matrix rows).",
    note="Trusted: harness embedding / projection. from_blocks is compared on the charges that occur in the given blocks (it cannot know others)."),
  "C01": dict(engine="E-bfs", design_ref="DESIGN.md 5 C01, 4.3, 2.4",
    technique="explicit-state breadth-first search over operation sequences on the real objects, states canonicalised by structure key, independent validity audit evaluated on every transition's results",
@@ -83,7 +83,7 @@ CHECKS = {
    text="For float32, float64, complex64 and complex128, every catalogue operation (both fuse strategies, both contraction modes, fill_missing_blocks, densification, decompositions, arithmetic, phase "
         "operations, through methods / symmray functions / autoray) is applied to abelian arrays, fermionic arrays with pending signs and block vectors whose sparsity forces zero-block creation, and "
         "every core operation again to every result of the structure-creating ones. Every block of every result must carry the operand's dtype (the real counterpart for singular values, eigenvalues, "
-        "abs, norm), the value must match the same call in double precision, numpy's ComplexWarning is turned into an error so a discarded imaginary part cannot pass silently, a complex diagonal on real data must promote to the complex counterpart, and 2- and 4-index structures are run in float64 first and then in another dtype within one process so that a plan cached for one element type is re-used for another.",
+        "abs, norm), the value must match the same call in double precision, numpy's ComplexWarning is turned into an error so a discarded imaginary part cannot pass silently, a complex diagonal on real data must promote to the complex counterpart, and 2- and 4-index structures are run in float64 first and then in another dtype within one process so that a plan cached for one element type is re-used for another. Creation: random / utils.get_rand for every dtype x distribution x scale / offset given as python float, numpy float64 / float32 scalar or 0-d array must give blocks of the requested type.",
    note="Trusted: numpy promotion rules as reference for 'same type'. Arrays without blocks carry no dtype and are skipped. Decomposition values are judged in C11/C12."),
  "C11": dict(engine="E-enum", design_ref="DESIGN.md 5 C11",
    technique="exhaustive enumeration of matrix structures (charge subsets x block-shape patterns x directions x charges x sparsity x pending signs x dtype) on the real qr/svd/eigh/solve; oracle = reconstruction through the library's own contraction + blockwise structural laws",
@@ -91,7 +91,7 @@ CHECKS = {
         "fermionic with pending signs; all four direction patterns; every total charge; missing blocks; real and complex - is decomposed by qr, stabilised qr (both spellings), svd, eigh (Hermitian "
         "charge-zero matrices) and solve (every right-hand-side charge), via symmray.linalg and autoray. Products rebuilt with the library's tensordot / multiply_diagonal must equal the input in the harness "
         "embedding; Q/U blocks must have orthonormal columns, V-dagger orthonormal rows, R upper triangular (non-negative real diagonal when stabilised), s non-negative non-increasing per charge; the bond must have "
-        "opposite directions, one charge per input block with size min(shape); factor charges, outer indices and validity (R-audit) are checked; a.x == b with the right charge and index.",
+        "opposite directions, one charge per input block with size min(shape); factor charges, outer indices and validity (R-audit) are checked; a.x == b with the right charge and index. Block fills include rank-one, exactly zero columns / blocks, complex symmetric and complex diagonal square blocks; Hermitian fills include antidiagonal-only and diagonal-only blocks.",
    note="Trusted: LAPACK through numpy on small blocks; tolerance 1e-8..1e-9; block values are seeded Gaussians (structure is what is enumerated)."),
  "C12": dict(engine="E-enum", design_ref="DESIGN.md 5 C12",
    technique="same exhaustive matrix-structure enumeration as C11; oracle = numpy.linalg on the harness's dense embedding",
@@ -105,7 +105,7 @@ CHECKS = {
         "real / complex. For each, all six cutoff modes x a cutoff inside every decision interval (and two beyond the total weight) x every bond limit from 1 to rank+1 and none x every absorb "
         "option are run: kept values must be exactly the largest ones the rule permits, every kept >= every discarded, the kept count must not grow with the cutoff, with no cutoff the bond equals the limit "
         "split over charges keeping each charge's largest, |x - U s V|^2 must equal the discarded weight, the absorb variants must give the same product, and the truncated factors must be valid "
-        "with matching bond tables and emptied charges removed.",
+        "with matching bond tables and emptied charges removed. Every returned factor must also be usable (to_dense, phase_sync, U @ VH) whenever the bond is non-empty.",
    note="Trusted: designed spectra (cross-checked against numpy's dense svd); cutoffs are placed at midpoints between thresholds; latitude: where the rule permits no value, none or only the largest are accepted."),
  "C06": dict(engine="E-enum", design_ref="DESIGN.md 5 C06",
    technique="exhaustive enumeration of contractible pairs x axes on the real code, each contracted along every route (direct in 3 modes; align + fuse contracted axes with both fuse strategies + single-pair contraction in 2 modes; free legs fused beforehand in 2 modes) with an exact differential comparison",
@@ -120,7 +120,7 @@ CHECKS = {
         "charge assignment, assignment of distinct labels to the odd tensors in every order, two index tables, sparsity probes and pending signs, every contraction route is executed: every pair "
         "order, both operand orders, every listing order of the shared legs, fused and blockwise modes, fermionic pre-transposes, all-at-once versus one-leg-then-einsum-trace. All terminal values "
         "(after a fermionic transpose to a canonical leg order) must be exactly equal, carry equal labels, charge and directions, and equal the word-model evaluation of the whole network. "
-        "Separately every pair of label tuples (lengths 0-3, labels 1-4, both directions) is driven through the public outer product against the word sign, and the label order is checked to be a strict total order.",
+        "Separately every pair of label tuples (lengths 0-3, labels 1-4, both directions) is driven through the public outer product against the word sign, and the label order is checked to be a strict total order. Every vector.vector / matrix.vector / matrix.matrix step of a route is repeated through the @ entry point and compared with the tensordot step.",
    note="Trusted: R-graded network evaluation; integer tags. With conjugate labels on the two operands the remaining labels are compared in the fully annihilated normal form (the library annihilates a pair only when it becomes adjacent)."),
  "C10": dict(engine="E-enum + E-bfs", design_ref="DESIGN.md 5 C10",
    technique="exhaustive enumeration of fermionic arrays x phase_dual for the adjoint laws (exact Gaussian-integer arithmetic, R-graded bra as reference) and route exploration of doubled bra-ket networks on the real code",
@@ -137,7 +137,7 @@ CHECKS = {
         "modes on three sites, given as FermionicOperators and as (label, symbol) pairs: the computed elements must equal the Jordan-Wigner vacuum expectation values. (B) For Z2, U1 (spinless and "
         "spinful maps), Z2Z2 and U1U1, complete and incomplete bases, 1-2 sites: the matrix of psi -> tensordot(G, psi) measured on the unit state tensor of every basis state (every total charge, odd ones "
         "with a label) must equal S.H.S for one diagonal sign matrix S solved from a generic connected reference operator - for every charge-conserving normal-ordered string of length 2 and 4, its "
-        "Hermitian completion (Hermitian matrix, exact spectrum), products of operator arrays versus the array of the product operator, constant terms (energy shifts), coefficient types (complex amplitudes in Hermitian term sets, python / numpy integers and float32 in front of fractions), and the five model builders with several parameter sets.",
+        "Hermitian completion (Hermitian matrix, exact spectrum), products of operator arrays versus the array of the product operator, constant terms (energy shifts), coefficient types (complex amplitudes in Hermitian term sets, python / numpy integers and float32 in front of fractions), and the five model builders with several parameter sets. One site carrying three modes with its eight states in two scrambled orders is included (unevenly spaced charge positions).",
    note="Trusted: Jordan-Wigner matrices as the meaning of second quantisation; tolerance 1e-9..1e-12. Only charge-conserving operators can be represented and are exercised."),
  "C19": dict(engine="E-enum", design_ref="DESIGN.md 5 C19",
    technique="exhaustive enumeration of labelled simple graphs x edge-listing / labelling / coefficient-form variants on the real Hamiltonian builders; reference = the lattice Hamiltonian as Jordan-Wigner matrices on all lattice modes",
